@@ -173,6 +173,7 @@ def run(chk):
     for r in res[:2]:
         chk.sample({"cfg": r["cfg"], "handshake": str(r["handshake"]), "client_ops": r["ncops"]})
     W.report_client_model(chk, res, "C06")
+    W.report_server_model(chk, res, "C06")
     if not chk.violations and not proof_ok:
         chk.violation("proof obligation no longer checks: " + chk.proof_detail,
                       ["# theorems of Props/C06.lean: " + ", ".join(vlib.prop_theorems("C06")), "# " + chk.proof_detail.replace("\n", "\n# ")], no_input=True)
